@@ -21,6 +21,14 @@ PROPERTIES = {
             "request times are non-decreasing along a history (Instant::now() is monotone)",
         ],
     },
+    "C14": {
+        "units": ["c14_style"],
+        "level": "proof",
+        "explanation": "ProgressStyle::{new, tick_chars, tick_strings, progress_chars, template, with_template} extracted and verified to establish the type invariant style_wf (>= 2 tick strings, >= 2 progress characters of one common width >= 1) or to reject explicitly; get_tick_str / get_final_tick_str are index- and remainder-safe under style_wf for every tick count.",
+        "level_text": "Deductive proof (Verus) that every builder either panics explicitly (assert!) or returns a style satisfying the invariant under which every index, remainder and division site of the renderers is safe, for all inputs and all tick counts; a style that is accepted but cannot be rendered shows up as a failed builder postcondition.",
+        "level_note": "Assumed: std iterator chains replaced by first-order helpers with contracts (R5), Box<str> as String, unicode-width uninterpreted (default chars one column wide), style::width stubbed (explicit panic or common width). format_bar's float arithmetic (division by char_width, progress_chars index) is decided by the Kani harness of C13 under the same invariant, not here. core::fmt writes into a String are infallible (unwrap on write_fmt).",
+        "assumptions": ["default cargo features (unicode-width on, unicode-segmentation off)"],
+    },
     "C07": {
         "units": ["c07_position", "pb_glue"],
         "kani_thorough": [
@@ -42,6 +50,10 @@ WITNESS = {
     "c05_limiters/RateLimiter::allow": ["rl_allow", "rl_window"],
     "c05_limiters/RateLimiter::new": ["rl_new"],
     "c05_limiters/AtomicPosition::allow": ["pos_allow"],
+    "c14_style/ProgressStyle::tick_strings": ["style_build tick_strings"],
+    "c14_style/ProgressStyle::progress_chars": ["style_build progress_chars"],
+    "c14_style/ProgressStyle::tick_chars": ["style_build tick_chars"],
+    "c14_style/ProgressStyle::": ["style_build"],
 }
 
 NOT_APPLICABLE = [
